@@ -556,7 +556,7 @@ MANIFEST = {
     "text": "States are event histories replayed on a fresh real registry (generated 16-line registry with deliberately colliding spellings: depth 3/4 over 32 events; bundled registry: depth 2/3 over 28 events); "
     "in every reached state each string of the probe alphabet is resolved on its own replayed copy through 6 entry points and must equal the answer of a fresh registry holding the same definitions. "
     "The event alphabet includes per-call case-insensitive lookups (parse_units / get_name with case_sensitive=False) and the probe alphabet a case variant, so a per-call request that outlives its call is a state difference. "
-    "Independently, all 138k prefix+spelling+plural strings, case variants under case-insensitive lookup (registry-wide and per call, followed by the default lookups through get_name / parse_units / in / Quantity(str) / getattr), and one-character near-misses are resolved and compared with the R4 reading set (exact spelling "
+    "Every non-multiplicative unit x 11 expression shapes x as_delta {default, True, False} x default_as_delta {True, False}: alone with exponent 1 it is itself, anywhere else its delta counterpart unless disabled. Independently, all 138k prefix+spelling+plural strings, case variants under case-insensitive lookup (registry-wide and per call, followed by the default lookups through get_name / parse_units / in / Quantity(str) / getattr), and one-character near-misses are resolved and compared with the R4 reading set (exact spelling "
     "first; else prefix x unit exactly once; undefined -> UndefinedUnitError; prefixed offset units refused; canonical name and symbol from the definition), and every defined spelling that also has a prefixed "
     "reading (the places where lazy registration could shadow a definition) is probed after the long form was looked up.",
     "note": "Trusted: R4/R1 reading model; the fingerprint covers _units, _units_casei, _prefixes, _cache, _dimensions, _base_units_cache. Where several non-equivalent readings exist any of them is accepted. "
